@@ -195,7 +195,7 @@ pub fn check_client(h: &History, ctx: &Ctx, st: &mut Stats) -> Result<(), String
         let reply = |sim: &mut Sim, body: Body, auth: Auth| {
             sim.now += 5_000_000;
             let last = (sim.awaiting().len().max(1) - 1) as u8;
-            let _ = sim.step(&Op::Deliver(Reply { target: Target::Outstanding(last), body, extra: 1, auth, fp: fp.clone(), dup: false }));
+            let _ = sim.step(&Op::Deliver(Reply { target: Target::Outstanding(last), body, extra: 1, auth, fp: fp.clone(), dup: false, twist: 0 }));
         };
         match sim.cfg.mech.clone() {
             Mech::None | Mech::ShortTerm(_) => {
